@@ -1,7 +1,5 @@
 import Verif.Gen.Versions
 import Verif.Lemmas.Version
-import Verif.Lemmas.VersionLib
-import Verif.Model.VersionInfo
 
 /-! # C04 — a library server never acknowledges a protocol version it does not support
 
@@ -318,318 +316,5 @@ example : serverAnswerG ["2025-06-18", "2024-11-05"] "2024-11-05" (.str "1999-01
     ∧ serverAnswerG ["2025-06-18", "2024-11-05"] "1999-01-01" (.str "1999-01-01") = "2025-06-18"
     ∧ serverAnswerG ["2025-06-18", "2024-11-05"] "2025-06-18" (.str "2024-11-05") = "2024-11-05"
     ∧ serverAnswerG ["2025-06-18", "2024-11-05"] "garbage" .other = "2025-06-18" := by decide
-
-/-! ## The version utilities of `protocol/types/versioning.py` (supplementary)
-
-`negotiateGen`, `compatibleGen`, `compareGen`, `isNewerGen`, `isOlderGen`, `isSupportedGen`,
-`latestGen`, `minimumGen`, `allSupportedGen` are REGENERATED from the source of
-`negotiate_version`, `validate_version_compatibility`, `ProtocolVersion.compare / is_newer /
-is_older / is_supported / get_latest_supported / get_minimum_supported / get_all_supported` on
-every run (`Gen/VersionLib.lean`); `none` = the function raises.  Strings are `List Char`,
-`strLt` is Python's `<` on `str`. -/
-section VersionLib
-open Verif.Model.Batching Verif.Model.VersionLib Verif.Gen.VersionLib Verif.Lemmas.VersionLib
-open Verif.Lemmas.Batching Verif.Model.VersionInfo
-
-/-- every fragment of the version utilities was inside the translator's subset, and the regular
-expression of `validate_format` is the one whose matching is modelled -/
-theorem c04_versionlib_translated :
-    Verif.Gen.VersionLib.translatable = true ∧ formatPattern = "^\\d{4}-\\d{2}-\\d{2}$" := by decide
-
-/-- `negotiate_version` returns `v` iff `v` is the FIRST client version the server list contains:
-it is in both lists and nothing before it in the client's list is common (all lists, duplicates
-and empty lists included). -/
-theorem c04_negotiate_first_common (c s : List (List Char)) (v : List Char) :
-    negotiateGen c s = some v ↔
-      ∃ pre post, c = pre ++ v :: post ∧ v ∈ s ∧ ∀ x ∈ pre, x ∉ s := by
-  unfold negotiateGen
-  constructor
-  · intro h
-    split at h
-    · rename_i r hr
-      simp only [Option.some.injEq] at h
-      subst h
-      obtain ⟨hp, pre, post, hc, hpre⟩ := List.find?_eq_some_iff_append.mp hr
-      exact ⟨pre, post, hc, by simpa using hp, fun x hx => by simpa using hpre x hx⟩
-    · simp at h
-  · rintro ⟨pre, post, hc, hv, hpre⟩
-    have : c.find? (fun x => s.contains x) = some v :=
-      List.find?_eq_some_iff_append.mpr ⟨by simpa using hv, pre, post, hc, fun x hx => by simpa using hpre x hx⟩
-    rw [this]
-
-/-- ... it raises iff the two lists have no common version; what it returns is in both lists. -/
-theorem c04_negotiate_raises_iff_disjoint (c s : List (List Char)) :
-    (negotiateGen c s = none ↔ ∀ x ∈ c, x ∉ s)
-    ∧ (∀ v, negotiateGen c s = some v → v ∈ c ∧ v ∈ s) := by
-  constructor
-  · unfold negotiateGen
-    constructor
-    · intro h
-      split at h
-      · simp at h
-      · rename_i hn
-        intro x hx
-        simpa using List.find?_eq_none.mp hn x hx
-    · intro h
-      have : c.find? (fun x => s.contains x) = none :=
-        List.find?_eq_none.mpr (fun x hx => by simpa using h x hx)
-      rw [this]
-  · intro v hv
-    obtain ⟨pre, post, hc, hs, _⟩ := (c04_negotiate_first_common c s v).mp hv
-    exact ⟨by simp [hc], hs⟩
-
-example : negotiateGen ["2025-06-18".toList, "2024-11-05".toList, "2025-03-26".toList]
-      ["2025-03-26".toList, "2024-11-05".toList] = some "2024-11-05".toList
-    ∧ negotiateGen ["x".toList] ["y".toList] = none ∧ negotiateGen [] ["y".toList] = none := by decide
-
-/-- `validate_version_compatibility`: true exactly for two EQUAL versions that are SUPPORTED. -/
-theorem c04_compatible_iff (a b : List Char) :
-    (compatibleGen a b = some true ↔ a = b ∧ a ∈ supportedL)
-    ∧ compatibleGen a b ≠ none ∧ (isSupportedGen a = true ↔ a ∈ supportedL) := by
-  simp [compatibleGen, isSupportedGen, isSupportedGenO]
-
-example : compatibleGen "2025-06-18".toList "2025-06-18".toList = some true
-    ∧ compatibleGen "2025-06-18".toList "2025-03-26".toList = some false
-    ∧ compatibleGen "1999-01-01".toList "1999-01-01".toList = some false := by decide
-
-/-- `compare`: `0` exactly on equal strings (well-formed or not); otherwise it raises iff one of the
-two is not well-formed, and on two different well-formed versions it is `1` or `-1` by the string
-order. -/
-theorem c04_compare_spec (a b : List Char) :
-    (compareGen a b = some 0 ↔ a = b)
-    ∧ (compareGen a b = none ↔ a ≠ b ∧ (validateFormatGen a = false ∨ validateFormatGen b = false))
-    ∧ (a ≠ b → validateFormatGen a = true → validateFormatGen b = true →
-        compareGen a b = some (if strLt b a then 1 else -1)) := by
-  unfold compareGen
-  by_cases hab : a = b
-  · simp [hab]
-  · by_cases ha : validateFormatGen a = true <;> by_cases hb : validateFormatGen b = true <;>
-      simp [hab, ha, hb] <;> split <;> simp
-
-/-- `compare` is a strict total order on well-formed versions: antisymmetric, transitive, total;
-`is_newer` / `is_older` are its two strict halves. -/
-theorem c04_compare_total_order (a b c : List Char) (ha : validateFormatGen a = true)
-    (hb : validateFormatGen b = true) (hc : validateFormatGen c = true) :
-    (compareGen a b = some 1 ↔ compareGen b a = some (-1))
-    ∧ (compareGen a b = some 1 → compareGen b c = some 1 → compareGen a c = some 1)
-    ∧ (compareGen a b = some 0 ∨ compareGen a b = some 1 ∨ compareGen a b = some (-1))
-    ∧ (isNewerGen a b = some true ↔ compareGen a b = some 1)
-    ∧ (isOlderGen a b = some true ↔ compareGen a b = some (-1)) := by
-  have key : ∀ x y : List Char, validateFormatGen x = true → validateFormatGen y = true →
-      (compareGen x y = some 1 ↔ strLt y x = true) ∧ (compareGen x y = some (-1) ↔ (x ≠ y ∧ strLt y x = false)) := by
-    intro x y hx hy
-    by_cases hxy : x = y
-    · subst hxy
-      have := (c04_compare_spec x x).1.mpr rfl
-      simp [this, strLt_irrefl]
-    · have := (c04_compare_spec x y).2.2 hxy hx hy
-      rw [this]
-      by_cases hl : strLt y x = true <;> simp [hl, hxy]
-  refine ⟨?_, ?_, ?_, ?_, ?_⟩
-  · rw [(key a b ha hb).1, (key b a hb ha).2]
-    constructor
-    · intro h
-      refine ⟨?_, strLt_asymm b a h⟩
-      intro e; subst e; simp [strLt_irrefl] at h
-    · rintro ⟨hne, h⟩
-      rcases strLt_total a b (fun e => hne e.symm) with h1 | h1
-      · simp [h1] at h
-      · exact h1
-  · rw [(key a b ha hb).1, (key b c hb hc).1, (key a c ha hc).1]
-    intro h1 h2
-    exact strLt_trans c b a h2 h1
-  · by_cases hab : a = b
-    · left; exact (c04_compare_spec a b).1.mpr hab
-    · right
-      rw [(c04_compare_spec a b).2.2 hab ha hb]
-      by_cases hl : strLt b a = true <;> simp [hl]
-  · have tri : compareGen a b = some 0 ∨ compareGen a b = some 1 ∨ compareGen a b = some (-1) := by
-      by_cases hab : a = b
-      · left; exact (c04_compare_spec a b).1.mpr hab
-      · right
-        rw [(c04_compare_spec a b).2.2 hab ha hb]
-        by_cases hl : strLt b a = true <;> simp [hl]
-    rcases tri with h | h | h <;> simp [isNewerGen, h]
-  · have tri : compareGen a b = some 0 ∨ compareGen a b = some 1 ∨ compareGen a b = some (-1) := by
-      by_cases hab : a = b
-      · left; exact (c04_compare_spec a b).1.mpr hab
-      · right
-        rw [(c04_compare_spec a b).2.2 hab ha hb]
-        by_cases hl : strLt b a = true <;> simp [hl]
-    rcases tri with h | h | h <;> simp [isOlderGen, h]
-
-/-- On the padded ASCII format `dddd-dd-dd` the order of `compare` IS the date order of
-`parse_version`: for all sixteen digits, `compare(v, w) = 1` iff `w`'s (year, month, day) is before
-`v`'s, `-1` iff after, `0` iff the same date; and `parse_version` reads the digits. -/
-theorem c04_compare_is_date_order (a b c d e f g h a' b' c' d' e' f' g' h' : Nat)
-    (ha : a < 10) (hb : b < 10) (hc : c < 10) (hd : d < 10) (he : e < 10) (hf : f < 10) (hg : g < 10)
-    (hh : h < 10) (ha' : a' < 10) (hb' : b' < 10) (hc' : c' < 10) (hd' : d' < 10) (he' : e' < 10)
-    (hf' : f' < 10) (hg' : g' < 10) (hh' : h' < 10) :
-    ∃ p q, parseVersionGen (fmt a b c d e f g h) = some p ∧ parseVersionGen (fmt a' b' c' d' e' f' g' h') = some q
-      ∧ p = (1000 * a + 100 * b + 10 * c + d, 10 * e + f, 10 * g + h)
-      ∧ (compareGen (fmt a b c d e f g h) (fmt a' b' c' d' e' f' g' h') = some 1 ↔ dateLtN q p)
-      ∧ (compareGen (fmt a b c d e f g h) (fmt a' b' c' d' e' f' g' h') = some (-1) ↔ dateLtN p q)
-      ∧ (compareGen (fmt a b c d e f g h) (fmt a' b' c' d' e' f' g' h') = some 0 ↔ p = q) := by
-  have hp := parseGen_fmt a b c d e f g h ha hb hc hd he hf hg hh
-  have hq := parseGen_fmt a' b' c' d' e' f' g' h' ha' hb' hc' hd' he' hf' hg' hh'
-  have hv := validGen_fmt a b c d e f g h ha hb hc hd he hf hg hh
-  have hv' := validGen_fmt a' b' c' d' e' f' g' h' ha' hb' hc' hd' he' hf' hg' hh'
-  have hl := strLt_fmt a' b' c' d' e' f' g' h' a b c d e f g h ha' hb' hc' hd' he' hf' hg' hh' ha hb hc hd he hf hg hh
-  have hinj : fmt a b c d e f g h = fmt a' b' c' d' e' f' g' h' ↔
-      (a = a' ∧ b = b' ∧ c = c' ∧ d = d' ∧ e = e' ∧ f = f' ∧ g = g' ∧ h = h') := by
-    simp [fmt, digitChar_inj, *]
-  refine ⟨_, _, hp, hq, rfl, ?_, ?_, ?_⟩
-  · by_cases hxy : fmt a b c d e f g h = fmt a' b' c' d' e' f' g' h'
-    · have h0 := (c04_compare_spec _ _).1.mpr hxy
-      rw [h0]
-      have := hinj.mp hxy
-      simp only [dateLtN]
-      constructor
-      · intro hh0; simp at hh0
-      · intro hd0; omega
-    · rw [(c04_compare_spec _ _).2.2 hxy hv hv', hl]
-      simp only [dateLtN, lexLt]
-      have hne := fun hall => hxy (hinj.mpr hall)
-      grind (splits := 200)
-  · by_cases hxy : fmt a b c d e f g h = fmt a' b' c' d' e' f' g' h'
-    · have h0 := (c04_compare_spec _ _).1.mpr hxy
-      rw [h0]
-      have := hinj.mp hxy
-      simp only [dateLtN]
-      constructor
-      · intro hh0; simp at hh0
-      · intro hd0; omega
-    · rw [(c04_compare_spec _ _).2.2 hxy hv hv', hl]
-      simp only [dateLtN, lexLt]
-      have hne := fun hall => hxy (hinj.mpr hall)
-      grind (splits := 200)
-  · rw [(c04_compare_spec _ _).1, hinj]
-    simp only [Prod.mk.injEq]
-    constructor
-    · rintro ⟨rfl, rfl, rfl, rfl, rfl, rfl, rfl, rfl⟩; exact ⟨rfl, rfl, rfl⟩
-    · intro ⟨h1, h2, h3⟩; omega
-
-/-- The regenerated `compare` is the `pvCompare` of C13's model on ASCII text, so C13's cutoff
-theorem (`c13_agrees_with_compare`: `compare(v, "2025-06-18") = -1` iff `supports_batching(v)`)
-speaks about the function as the source defines it now. -/
-theorem c04_compare_matches_c13_model (a b c d e f g h : Nat)
-    (ha : a < 10) (hb : b < 10) (hc : c < 10) (hd : d < 10) (he : e < 10) (hf : f < 10) (hg : g < 10)
-    (hh : h < 10) :
-    compareGen (fmt a b c d e f g h) cutoff = (pvCompare (fmt a b c d e f g h) cutoff).toOption
-    ∧ compareGen cutoff (fmt a b c d e f g h) = (pvCompare cutoff (fmt a b c d e f g h)).toOption := by
-  have hv := validGen_fmt a b c d e f g h ha hb hc hd he hf hg hh
-  have hv2 := valid_fmt a b c d e f g h ha hb hc hd he hf hg hh
-  have hc1 : validateFormatGen cutoff = true := by decide
-  have hc2 : validFormat cutoff = true := valid_cutoff
-  constructor
-  · by_cases hxy : fmt a b c d e f g h = cutoff
-    · rw [(c04_compare_spec _ _).1.mpr hxy]
-      simp [pvCompare, hxy, Except.toOption]
-    · rw [(c04_compare_spec _ _).2.2 hxy hv hc1]
-      simp [pvCompare, hxy, hv2, hc2, Except.toOption]
-  · by_cases hxy : cutoff = fmt a b c d e f g h
-    · rw [(c04_compare_spec _ _).1.mpr hxy]
-      simp [pvCompare, hxy, Except.toOption]
-    · rw [(c04_compare_spec _ _).2.2 hxy hc1 hv]
-      simp [pvCompare, hxy, hv2, hc2, Except.toOption]
-
-/-- `parse_version` raises exactly on what `validate_format` rejects (Unicode digits of any script,
-one trailing newline included in "accepts"). -/
-theorem c04_parse_iff_valid (v : List Char) :
-    parseVersionGen v = none ↔ validateFormatGen v = false := by
-  have hnd : ∀ c, isNd ndZeros c = true → ∃ d, ndVal ndZeros c = some d := by
-    intro c hc
-    unfold isNd at hc
-    unfold ndVal
-    obtain ⟨z, hz, hp⟩ := List.any_eq_true.mp hc
-    cases hf : ndZeros.find? (fun z => decide (z ≤ c.toNat) && decide (c.toNat ≤ z + 9)) with
-    | none => exact absurd hp (by simpa using List.find?_eq_none.mp hf z hz)
-    | some w => exact ⟨_, rfl⟩
-  unfold parseVersionGen parseVersionU validateFormatGen
-  by_cases hv : validFormatU ndZeros v = true
-  · simp only [hv, if_true]
-    constructor
-    · intro h
-      exfalso
-      unfold validFormatU at hv
-      split at hv
-      · simp only [Bool.and_eq_true, decide_eq_true_eq] at hv
-        obtain ⟨⟨⟨⟨⟨⟨⟨⟨⟨h1, h2⟩, h3⟩, h4⟩, _⟩, h5⟩, h6⟩, _⟩, h7⟩, h8⟩ := hv
-        obtain ⟨_, e1⟩ := hnd _ h1; obtain ⟨_, e2⟩ := hnd _ h2; obtain ⟨_, e3⟩ := hnd _ h3
-        obtain ⟨_, e4⟩ := hnd _ h4; obtain ⟨_, e5⟩ := hnd _ h5; obtain ⟨_, e6⟩ := hnd _ h6
-        obtain ⟨_, e7⟩ := hnd _ h7; obtain ⟨_, e8⟩ := hnd _ h8
-        simp [ndNumber, e1, e2, e3, e4, e5, e6, e7, e8] at h
-      · simp only [Bool.and_eq_true, decide_eq_true_eq] at hv
-        obtain ⟨⟨⟨⟨⟨⟨⟨⟨⟨⟨h1, h2⟩, h3⟩, h4⟩, _⟩, h5⟩, h6⟩, _⟩, h7⟩, h8⟩, _⟩ := hv
-        obtain ⟨_, e1⟩ := hnd _ h1; obtain ⟨_, e2⟩ := hnd _ h2; obtain ⟨_, e3⟩ := hnd _ h3
-        obtain ⟨_, e4⟩ := hnd _ h4; obtain ⟨_, e5⟩ := hnd _ h5; obtain ⟨_, e6⟩ := hnd _ h6
-        obtain ⟨_, e7⟩ := hnd _ h7; obtain ⟨_, e8⟩ := hnd _ h8
-        simp [ndNumber, e1, e2, e3, e4, e5, e6, e7, e8] at h
-      · simp at hv
-    · intro h; simp at h
-  · simp [hv]
-
-example : parseVersionGen "2025-06-18".toList = some (2025, 6, 18)
-    ∧ parseVersionGen "2025-06-18\n".toList = some (2025, 6, 18)
-    ∧ parseVersionGen "٢٠٢٥-٠٦-١٨".toList = some (2025, 6, 18)
-    ∧ parseVersionGen "2025-6-18".toList = none ∧ parseVersionGen "2025-06-18\n\n".toList = none
-    ∧ parseVersionGen " 2025-06-18".toList = none := by decide
-
-/-- The library's own list (regenerated): `CURRENT_VERSION` / `MINIMUM_VERSION` are its first / last
-entry, every entry is well-formed, the list is strictly descending in `compare`'s order, so every
-supported version lies between the minimum and the current one. -/
-theorem c04_current_minimum_bounds :
-    latestGen = some (supportedL.head?.getD []) ∧ minimumGen = some (supportedL.getLast?.getD [])
-    ∧ allSupportedGen = some supportedL
-    ∧ (∀ v ∈ supportedL, validateFormatGen v = true)
-    ∧ supportedL.Pairwise (fun x y => compareGen x y = some 1)
-    ∧ (∀ v ∈ supportedL, ∀ cur ∈ latestGen, ∀ mn ∈ minimumGen,
-        (compareGen v cur = some 0 ∨ compareGen v cur = some (-1))
-        ∧ (compareGen v mn = some 0 ∨ compareGen v mn = some 1)) := by
-  refine ⟨rfl, rfl, rfl, by decide, by decide, by decide⟩
-
-/-- `get_version_info`: its flags are the predicates; the date members and the two order flags are
-present exactly for a well-formed version; a well-formed version is never both newer than the
-current and older than the minimum; the current version is supported and neither. -/
-theorem c04_version_info_flags (v : List Char) :
-    (versionInfo v).isValid = validateFormatGen v
-    ∧ (versionInfo v).isSupported = isSupportedGen v
-    ∧ ((versionInfo v).isCurrent = true ↔ some v = latestGen)
-    ∧ ((versionInfo v).details.isSome = true → validateFormatGen v = true)
-    ∧ (∀ dt ∈ (versionInfo v).details,
-        parseVersionGen v = some (dt.year, dt.month, dt.day)
-        ∧ isNewerGen v (latestGen.getD []) = some dt.newerThanCurrent
-        ∧ isOlderGen v (minimumGen.getD []) = some dt.olderThanMinimum) := by
-  refine ⟨rfl, rfl, ?_, ?_, ?_⟩
-  · simp [versionInfo, latestGen]
-  · intro h
-    unfold versionInfo at h
-    simp only at h
-    split at h
-    · assumption
-    · simp at h
-  · intro dt hdt
-    unfold versionInfo at hdt
-    simp only [Option.mem_def] at hdt
-    split at hdt
-    · split at hdt
-      · rename_i y m d n o h1 h2 h3
-        simp only [Option.some.injEq] at hdt
-        subst hdt
-        exact ⟨h1, h2, h3⟩
-      · simp at hdt
-    · simp at hdt
-
-example : versionInfo "2025-03-26".toList = ⟨true, true, false, some ⟨2025, 3, 26, false, false⟩⟩
-    ∧ versionInfo "2025-06-18".toList = ⟨true, true, true, some ⟨2025, 6, 18, false, false⟩⟩
-    ∧ versionInfo "2031-01-01".toList = ⟨true, false, false, some ⟨2031, 1, 1, true, false⟩⟩
-    ∧ versionInfo "1999-12-31".toList = ⟨true, false, false, some ⟨1999, 12, 31, false, true⟩⟩
-    ∧ versionInfo "draft".toList = ⟨false, false, false, none⟩ := by decide
-
-example : formatVersionList [] = "None".toList ∧ formatVersionList ["a".toList] = "a".toList
-    ∧ formatVersionList ["a".toList, "b".toList] = "a and b".toList
-    ∧ formatVersionList ["a".toList, "b".toList, "c".toList] = "a, b and c".toList := by decide
-
-end VersionLib
 
 end Verif.Props.C04
